@@ -31,6 +31,14 @@ SLICE = ['C', 'N', 'O', 'c', 'n', '[NH4+]', '[O-]', '[C@H]', '[13CH3-]',
          '(', ')', '1', '2', '%10',
          '>', ' |^1:0|',
          ';', '!', '~', '@', '[', ']', '0', ',']
+# bracket atoms: one slot per field of the OpenSMILES bracket grammar, each optional, each with valid and invalid spellings
+BR_SLOTS = [['', '13', '1', '2', '0', '999', '1000', '014'],
+            ['C', 'N', 'Cl', 'c', 'se', 'te', 'si', 'H', 'Fe', 'Xx', 'cl', ''],
+            ['', '@', '@@', '@@@', '@TH1'],
+            ['', 'H', 'H2', 'H4', 'H0', 'H5', 'h'],
+            ['', '+', '--', '+1', '-4', '+5', '+++', '+-', '+0', '2+', '++'],
+            ['', ':1', ':0', ':1234', ':12345', ':', ':01']]
+BR_TOKENS = ['13', '0', 'C', 'N', 'Cl', 'c', 'se', 'H', 'Fe', 'Xx', '@', '@@', 'H2', 'H5', '+', '-', '++', '+2', '+5', ':1', ':1234', ':', ';', '$', '*', ' ', '[', ']', '(', '%']
 MUT_QUICK = list('CNOcn()[]=#1290%+-@H/\\.:;!~>lr ')
 MUT_FULL = MUT_QUICK + list('SPFBIospb345678,$*|^&ZaeXx{}"\'')
 
@@ -441,6 +449,20 @@ def _w_tokens(args):
     return acc.result()
 
 
+def _w_brackets(args):
+    kind, head = args
+    _setup()
+    acc = _Acc()
+    if kind == 'slots':
+        for rest in itertools.product(*BR_SLOTS[1:]):
+            acc.add('[' + head + ''.join(rest) + ']')
+    else:
+        for k in range(0, 3):
+            for rest in itertools.product(BR_TOKENS, repeat=k):
+                acc.add('[' + head + ''.join(rest) + ']')
+    return acc.result()
+
+
 def _w_strings(args):
     strings, deep, must_parse = args
     _setup()
@@ -622,6 +644,10 @@ def bounded(run):
     _merge(run, pmap(_w_tokens, items, chunksize=4), fam, odd, stats)
     run.bound(f'exhaustive: all {sum(len(SLICE) ** k for k in range(2, L2 + 1))} token strings of 2..{L2} tokens over the {len(SLICE)}-token slice {SLICE}'
               + ('' if L2 <= 4 else ' (accepted strings of this layer are counted, not keyed)'))
+    res = pmap(_w_brackets, [('slots', h) for h in BR_SLOTS[0]] + [('tokens', h) for h in BR_TOKENS])
+    _merge(run, res, fam, odd, stats)
+    run.bound(f'bracket atoms: all {sum(x[0] for x in res)} strings "[b]" with b = every combination of the per-field spellings {BR_SLOTS} '
+              f'(grammar order) and every string of 1..3 tokens over {BR_TOKENS}')
     tm['tokens'] = round(time.time() - t0, 1)
 
     # 2. grammar-generated strings ------------------------------------------------------------------------------------------
